@@ -152,3 +152,18 @@ package builtin
 //@   ensures atom.Predicate.Symbol == symbols.DurationLe.Symbol && !(len(atom.Args) == 2 && isC(atom.Args[0], ast.DurationType) && isC(atom.Args[1], ast.DurationType)) ==> err != nil
 //@   ensures atom.Predicate.Symbol == symbols.DurationGt.Symbol && !(len(atom.Args) == 2 && isC(atom.Args[0], ast.DurationType) && isC(atom.Args[1], ast.DurationType)) ==> err != nil
 //@   ensures atom.Predicate.Symbol == symbols.DurationGe.Symbol && !(len(atom.Args) == 2 && isC(atom.Args[0], ast.DurationType) && isC(atom.Args[1], ast.DurationType)) ==> err != nil
+
+// ---- C07: matching a map entry / struct field scans until the key looked for, and only until then ----------------------
+// The callbacks handed to MapValues / StructValues (function literals of match, named as go/ssa names them): the scan is
+// stopped (non-nil error) exactly at an entry whose key equals the pattern key - never earlier, so a key that was put in
+// is found whatever precedes it.
+// (eqC is the structural equality that ast.Constant.Equals computes on well-formed constants, C08; its precondition at
+// these call sites is not established here.)
+//@ func match$1(key, val)
+//@   opt nosafety
+//@   requires errFound != nil
+//@   ensures (err != nil) == ast.eqC(key, patternKey)
+//@ func match$3(key, val)
+//@   opt nosafety
+//@   requires errFound != nil
+//@   ensures (err != nil) == ast.eqC(key, patternKey)
